@@ -81,6 +81,8 @@ def check_forwarding(ctx, res: Result, callers: Iterable[str], rule="F-FWD"):
             f"the caller's {'/'.join(fp)} filter is not forwarded to {cf.callee.short} (omitted or literal None): the query is answered for the unfiltered hypergraph",
             where,
         )
+        if forwarded and "up_to" in caller_params and "up_to" in callee_params and not opaque_star:
+            _check_upto_forwarded(ctx, res, cf, fp, forwarded, rule, f, text, where)
         for q, k in forwarded.items():
             v = fits(k, KIND_OF[q])
             if isinstance(v, Mismatch):
@@ -105,3 +107,51 @@ def _subsumed(ctx, cf):
                 if tid is not None and v.cfg.dominates(tid, cid) and tid != cid:
                     out.add(st.value.left.id)
     return out
+
+
+def _arg_for(cf, pname):
+    """the argument expression bound to parameter `pname` at the call, None when omitted"""
+    for kw in cf.node.keywords:
+        if kw.arg == pname:
+            return kw.value
+    pn = [a.arg for a in cf.callee.params]
+    if cf.callee.cls is not None and not cf.callee.is_static and isinstance(cf.node.func, ast.Attribute) and pn and pn[0] in ("self", "cls"):
+        pn = pn[1:]
+    if pname in pn:
+        i = pn.index(pname)
+        if i < len(cf.node.args) and not any(isinstance(a, ast.Starred) for a in cf.node.args[: i + 1]):
+            return cf.node.args[i]
+    return None
+
+
+def _check_upto_forwarded(ctx, res, cf, fp, forwarded, rule, f, text, where):
+    """The caller's own order/size parameter is handed on as it is, the callee has an `up_to` switch like the caller,
+    and the call leaves it at its default (or a literal): on this path the caller's `up_to` has no effect.  Reported only
+    when nothing else on the paths through the call reads `up_to` (a caller may implement the cumulative filter itself)."""
+    passed = _arg_for(cf, "up_to")
+    if passed is not None and not isinstance(passed, ast.Constant):
+        res.ok(rule, f, text, f"{cf.callee.short}:up_to", where)
+        return
+    direct = [q for q in forwarded if isinstance(_arg_for(cf, q), ast.Name) and _arg_for(cf, q).id in fp]
+    if not direct:
+        return
+    v = ctx.view(cf.caller)
+    cid = v.cfg_id(cf.node)
+    others = []
+    for n in walk_no_nested(cf.caller.node):
+        if isinstance(n, ast.Name) and n.id == "up_to" and isinstance(n.ctx, ast.Load):
+            nid = v.cfg_id(n)
+            tid = None
+            cur = n
+            while cur is not None and cur is not cf.caller.node:
+                if id(cur) in v.cfg.by_ast:
+                    tid = v.cfg.by_ast[id(cur)]
+                    break
+                cur = v.parent.get(id(cur))
+            for x in {nid, tid} - {None}:
+                if x != cid and (v.cfg.reachable(x, cid) or v.cfg.reachable(cid, x)):
+                    others.append(n)
+    if cid is None or others:
+        res.unknown(rule, f, text, f"{cf.callee.short}:up_to", "up_to is not handed on at this call but is read elsewhere on the paths through it", where)
+        return
+    res.violation(rule, f, text, f"{cf.callee.short}:up_to", f"the caller's {'/'.join(direct)} filter is handed on but its `up_to` switch is not ({'literal' if passed is not None else 'omitted'}): with up_to=True the query is answered for the exact order/size only", where)
